@@ -30,8 +30,38 @@ def reset_between_cases():
     import numpy as np
     warnings.simplefilter('ignore')
     np.random.seed(12345)
-    from matched_markets.methodology import tbrmmdiagnostics as _d
-    for name in ('_brownian_bridge_bounds', '_impact_estimate'):
-        f = getattr(_d.TBRMMDiagnostics, name, None)
-        if f is not None and hasattr(f, 'cache_clear'):
-            f.cache_clear()
+    for f in library_caches():
+        f.cache_clear()
+
+
+_CACHES = None
+
+
+def library_caches():
+    """Every functools cache (lru_cache / cache) defined at module or class level anywhere in the library: process-wide
+    hidden state.  Cleared between cases so that one case cannot influence another; checks that want to SEE such state
+    run explicit multi-call histories inside one case."""
+    global _CACHES
+    if _CACHES is None:
+        import importlib
+        import inspect
+        import pkgutil
+        found = []
+        import matched_markets.methodology as pkg
+        for mi in pkgutil.iter_modules(pkg.__path__):
+            if 'test' in mi.name:
+                continue
+            try:
+                mod = importlib.import_module('matched_markets.methodology.' + mi.name)
+            except Exception:
+                continue
+            for _, obj in vars(mod).items():
+                if hasattr(obj, 'cache_clear') and hasattr(obj, 'cache_info'):
+                    found.append(obj)
+                elif inspect.isclass(obj) and getattr(obj, '__module__', '') == mod.__name__:
+                    for _, m in vars(obj).items():
+                        m = getattr(m, 'fget', m)
+                        if hasattr(m, 'cache_clear') and hasattr(m, 'cache_info'):
+                            found.append(m)
+        _CACHES = found
+    return _CACHES
